@@ -267,7 +267,7 @@ class Ctx:
         if isinstance(obj, type):
             if obj.__module__ == "builtins":
                 return Builtin(obj.__name__)
-            if modname.split(".")[0] in ("mypy", "griffe", "pathlib", "io", "_io"):
+            if modname.split(".")[0] in ("mypy", "griffe", "pathlib", "io", "_io", "argparse"):
                 return ClassRef(self.ct.register_native_tree(obj))
             return ExtFunc(f"{obj.__module__}.{obj.__qualname__}")
         if isinstance(obj, (int, str, bool)) and not callable(obj):
